@@ -640,9 +640,9 @@ func (c *FnCtx) resolveName(name string, b *ssa.BasicBlock, idx int, atLoopHead 
 				for _, in := range blk.Instrs {
 					if d, ok := in.(*ssa.DebugRef); ok && !d.IsAddr && debugName(d) == name {
 						if di, ok := d.X.(ssa.Instruction); ok && di.Block() == b {
-							if _, isPhi := d.X.(*ssa.Phi); !isPhi {
-								return d.X, false, true
-							}
+							// a value computed in the header, or a header phi the compiler named differently
+							// (e.g. the hidden iterator of `for i := range n`)
+							return d.X, false, true
 						}
 					}
 				}
